@@ -506,8 +506,17 @@ fn op_inject(src: &mut Src, ctx: &mut Ctx, w: &mut World, g: &mut Gen) {
             };
             let n = size(src, 0);
             let sport = ITAG_PORT + itag as u16;
-            let l4 = Udp::new(sport, dport, payload_for(g.seed, itag, true, n)).encode(&from, &to);
-            (IpPkt::build(from, to, PROTO_UDP, ttl, l4), format!("UDP i#{} {} bytes {}:{} -> {}:{} ({})", itag, n, from, sport, to, dport, toname))
+            let mut l4 = Udp::new(sport, dport, payload_for(g.seed, itag, true, n)).encode(&from, &to);
+            // one datagram in eight travels in an IP packet that is 1..=8 octets longer than the UDP
+            // length field says (decided from bits of the case seed: no further draw); those octets
+            // are not part of the datagram
+            let sl = g.seed.rotate_right((itag as u32 % 16) * 4 + 7);
+            let slack = if sl & 7 == 0 { 1 + ((sl >> 3) & 7) as usize } else { 0 };
+            if slack > 0 {
+                l4.extend(std::iter::repeat(0xEE).take(slack));
+                ctx.label("rx:udp-with-octets-beyond-its-length-field");
+            }
+            (IpPkt::build(from, to, PROTO_UDP, ttl, l4), format!("UDP i#{} {} bytes (+{} beyond the UDP length) {}:{} -> {}:{} ({})", itag, n, slack, from, sport, to, dport, toname))
         }
         1 => {
             let ident = match src.weighted(&[6, 2, 1]) {
